@@ -213,17 +213,15 @@ def dynFull (cfg : Cfg) (a : A) : Bool :=
   let used := (a.mods.filter (·.alive)).map (·.modId)
   (List.range (maxDyn cfg)).all (fun i => used.contains (cfg.dynStart + (i : Int)))
 
-/-- returns the updated abstract state and whether the connect was accepted -/
-def checkConnect (cfg : Cfg) (a : A) (u : Nat) (m : AMod) (h : Hdr) (evs : List Ev) : A × Bool :=
+/-- returns the updated abstract state and whether the connect was accepted (`none`: not observable — the requester's
+    own socket is broken, so neither an ACKNOWLEDGE nor its absence can be seen; it is dropped either way) -/
+def checkConnect (cfg : Cfg) (a : A) (u : Nat) (m : AMod) (h : Hdr) (evs : List Ev) : A × Option Bool :=
   let r := reqOf cfg m h a.buf
   let acks := (sends evs).filter (fun p => p.2.2.body == .ack)
-  let accepted := !acks.isEmpty || ((wfails evs).contains u && !(closes evs).isEmpty &&
-                    !(evs.head? == some (.close u)))
-  -- observed outcome: an ACK (or a failed attempt to write it) means accepted; a close first means refused
-  let observedAccept := !acks.isEmpty || (a.failing u && (evs.find? (fun e => e == .wfail u || e == .close u)) == some (.wfail u))
-  let _ := accepted
+  if acks.isEmpty && a.failing u then (a, none) else
+  let observedAccept := !acks.isEmpty
   match r.name with
-  | none => (a.chk (!observedAccept) "C03" "a connect request with a non-ascii name was accepted", false)
+  | none => (a.chk (!observedAccept) "C03" "a connect request with a non-ascii name was accepted", some false)
   | some nm =>
     if r.modId != 0 then
       let must := mustRefuse cfg a u r nm
@@ -232,20 +230,17 @@ def checkConnect (cfg : Cfg) (a : A) (u : Nat) (m : AMod) (h : Hdr) (evs : List 
       let a := a.chk (may || observedAccept) "C06" s!"connect of {u} with id {r.modId} was refused without reason"
       if observedAccept then
         (a.upd u (fun m => { m with connected := true, modId := r.modId, unique := r.unique, isLogger := r.isLogger,
-                                     pid := r.pid, name := nm }), true)
-      else (a, false)
+                                     pid := r.pid, name := nm }), some true)
+      else (a, some false)
     else
       if observedAccept then
         let id := match acks.head? with | some p => p.2.2.dest | none => -1
-        let a :=
-          if acks.isEmpty then a
-          else
-            let a := a.chk (cfg.dynStart ≤ id && id < cfg.maxModules) "C06" s!"dynamic id {id} outside [{cfg.dynStart}, {cfg.maxModules})"
-            a.chk (!(a.mods.any (fun o => o.alive && o.uid != u && o.modId == id))) "C06" s!"dynamic id {id} is already held by a live module"
+        let a := a.chk (cfg.dynStart ≤ id && id < cfg.maxModules) "C06" s!"dynamic id {id} outside [{cfg.dynStart}, {cfg.maxModules})"
+        let a := a.chk (!(a.mods.any (fun o => o.alive && o.uid != u && o.modId == id))) "C06" s!"dynamic id {id} is already held by a live module"
         (a.upd u (fun m => { m with connected := true, modId := id, unique := r.unique, isLogger := r.isLogger,
-                                     pid := r.pid, name := nm }), true)
+                                     pid := r.pid, name := nm }), some true)
       else
-        (a.chk (dynFull cfg a) "C06" s!"connect of {u} asking for a dynamic id was refused although ids are free", false)
+        (a.chk (dynFull cfg a) "C06" s!"connect of {u} asking for a dynamic id was refused although ids are free", some false)
 
 /-- every CLIENT_INFO frame describes its module as the abstract state has it (options took effect as named) -/
 def checkInfos (a : A) (evs : List Ev) : A :=
@@ -253,7 +248,7 @@ def checkInfos (a : A) (evs : List Ev) : A :=
     | .info v pid mid lg uq nm =>
       match a.get v with
       | some m =>
-        if !m.connected || m.modId == -1 then a      -- -1: accepted, but the ACK carrying the assigned id could not be written
+        if !m.connected then a
         else a.chk (mid == m.modId && lg == m.isLogger && uq == m.unique && nm == m.name && pid == m.pid) "C06"
           s!"CLIENT_INFO about {v} reports id/logger/unique/name/pid ({mid},{lg},{uq},{pid}) but the module connected with ({m.modId},{m.isLogger},{m.unique},{m.pid})"
       | none => a
@@ -285,10 +280,14 @@ def segment (cfg : Cfg) (a : A) (rd : Read) (evs : List Ev) : A :=
       let a := checkAcks cfg a u false evs
       applyDepartures (checkDepartures cfg a none evs) evs
     else
-      let (a, ok) := checkConnect cfg a u m h evs
-      let a := checkAcks cfg a u ok evs
-      let a := checkDepartures cfg a (if ok then none else some u) evs
-      applyDepartures (checkInfos a evs) evs
+      match checkConnect cfg a u m h evs with
+      | (a, none) =>
+        -- either refused, or accepted and dropped when the ACK could not be written: closed in both cases
+        applyDepartures (checkDepartures cfg a (some u) evs) evs
+      | (a, some ok) =>
+        let a := checkAcks cfg a u ok evs
+        let a := checkDepartures cfg a (if ok then none else some u) evs
+        applyDepartures (checkInfos a evs) evs
   else if t == cfg.mtDisconnect then
     let a := checkAcks cfg a u false evs
     applyDepartures (checkDepartures cfg a (some u) evs) evs
